@@ -29,7 +29,7 @@ CHECKS = {
  "C06": dict(text="Proof (Coq): the lock/job protocol as a transition system over the events the hooked implementation reports (acquired, busy, release, forced, job start, job recorded, process end): on every accepted event sequence of any number of processes there is at most one running script per file id, every running script's lock is held by a live process, and a lock can be released only after the result was recorded (C06_mutex, C06_recorded_before_release). Tie: trace validation on 2..5 contending top-level invocations (redo / redo-ifchange, mixed -j, failing scripts); the model refuses e.g. a holder that ends while its script runs (finding F2). Oracle: work sections written by the scripts themselves never overlap per target.",
     note=TB + " A-FCNTL; events are logged after acquisition / before release so the trace order is a possible real order; killing only the parent redo is a stated limit.",
     technique="Coq invariant proof over the lock-protocol transition system + trace validation of the implementation's lock events", ref="5/C06"),
- "C07": dict(text="Proof (Coq, partial): one running script per file id at any time (lock protocol), a file id is handled once per command whatever its spellings, a target that failed in this run is refused; a job that ends with status 0 leaves its row 'dealt with in this run' and every further redo-ifchange of it in that run starts no script whatever its dependencies look like (C07_success_marks_row, C07_dealt_with_not_again; finding F23); diamond example on the serial model. Equality with the serial build is decided on the implementation: random DAGs at -j1..8, shuffled, duplicate spellings, SIGSTOP/SIGCONT perturbed schedules, compared with a -j1 build (execution counts, exit status, file contents, Files/Deps rows). On the transition system of the lock protocol (Sched/OnceRun.v: free/held/building/recorded, should_build under the lock, one run mark per row) every event sequence of any number of processes of ONE run starts each script at most once (C07_at_most_once_per_run); with other runs the bound is starts <= foreign records + 1 unless a later run recorded the target, in which case it is refuted by a witness; the lck events of every parallel run are replayed through the extracted model. The build lock of fix F71 (Sched/BuildLock.v): on every accepted trace a running script's build lock is held by its starter, and for every interleaving of builders and walks under mutually exclusive write transactions no walk reads rows in mid-build of a target whose build lock it found free (C07_running_script_holds_build_lock, C07_walk_never_reads_rows_in_mid_build); the traces are replayed through the protocol WITH these obligations.",
+ "C07": dict(text="Proof (Coq, partial): one running script per file id at any time (lock protocol), a file id is handled once per command whatever its spellings, a target that failed in this run is refused; a job that ends with status 0 leaves its row 'dealt with in this run' and every further redo-ifchange of it in that run starts no script whatever its dependencies look like (C07_success_marks_row, C07_dealt_with_not_again; finding F23); diamond example on the serial model. Equality with the serial build is decided on the implementation: random DAGs at -j1..8, shuffled, duplicate spellings, SIGSTOP/SIGCONT perturbed schedules, compared with a -j1 build (execution counts, exit status, file contents, Files/Deps rows). On the transition system of the lock protocol (Sched/OnceRun.v: free/held/building/recorded, should_build under the lock, one run mark per row) every event sequence of any number of processes of ONE run starts each script at most once (C07_at_most_once_per_run); with other runs the bound is starts <= foreign records + 1 unless a later run recorded the target, in which case it is refuted by a witness; the lck events of every parallel run are replayed through the extracted model. The build lock of fix F71 (Sched/BuildLock.v): on every accepted trace a running script's build lock is held by its starter, and for every interleaving of builders and walks under mutually exclusive write transactions no walk reads rows in mid-build of a target whose build lock it found free (C07_running_script_holds_build_lock, C07_walk_never_reads_rows_in_mid_build); the traces are replayed through the protocol WITH these obligations, and the order of steps the model assumes (lock before the start commit, kept until the result is recorded, probed by the walk before the rows are read; builder.rs transactions IMMEDIATE) is read off the current source by tools/anchors.py on every run (C07_build_lock_tied_to_source).",
     note=TB + " confluence (C07_full_statement) is not proved in Coq.",
     technique="Coq proof of the once-only mechanisms + differential comparison of parallel vs serial builds of the implementation", ref="5/C07"),
  "C09": dict(text="Proof (Coq, partial): for every sequence of the token-book operations the code performs under its own tests, no assertion of jobserver.rs can fail (C09_no_token_assertion, invariant my,cheats in {0,1}); globally no book or pipe goes negative. Deadlock-freedom is not proved. On the implementation: all-success builds under perturbed schedules (processes stopped/continued at random so that child exits, token arrivals and lock hand-overs coincide), duplicate targets, contending invocations, externally held log locks (cheat storm): must end with exit 0, no panic, token trace accepted by the model.",
